@@ -199,6 +199,15 @@ def run(rep):
         vecs.append((s, i))
     exv = common.executor(unwind=24, str_cap=8)
     real = real_resolve(vecs)
+    # concrete witnesses: the real function against the reference on the same vectors (a difference here is a violation
+    # whatever the symbolic part can or cannot encode)
+    for (s, i), r in zip(vecs, real):
+        want = ref_concrete(s, i)
+        if r != want:
+            key = classify(s, i)
+            if not rep.seen(key):
+                p = rep.write_replay('vector', {'cmd': 'resolve', 'spec': s, 'importer': i, 'expected': want, 'observed_dev': r})
+                rep.violation(key, 'resolve(%r, %r) = %r, reference %r (concrete vector)' % (s, i, r, want), p)
     for (s, i), r in zip(vecs, real):
         mine = concrete_run(exv, name, s, i)
         if mine != r:
